@@ -164,7 +164,17 @@ def run_broker(c):
                 dfrows.append([pid, len(df)])
             except Exception as e:
                 dfrows.append([pid, errname(e)])
-        return {'init': ['ok'], 'snap0': snap0, 'steps': steps, 'hist': hist, 'dfrows': dfrows}
+        probes = []
+        before = bsnap()
+        for name in ('get_portfolio_as_dict', 'get_portfolio_cash_balance', 'get_portfolio_total_market_value', 'get_portfolio_total_equity'):
+            try:
+                getattr(broker, name)('no-such-portfolio')
+                probes.append([name, ['ok']])
+            except Exception as e:
+                probes.append([name, errname(e)])
+        if bsnap() != before:
+            probes.append(['state after the refused getters', ['changed']])
+        return {'init': ['ok'], 'snap0': snap0, 'steps': steps, 'hist': hist, 'dfrows': dfrows, 'unknown_pid_probes': probes}
     finally:
         Portfolio.transact_asset = orig
         if orig_exec is not None:
